@@ -71,4 +71,30 @@ def mon02b : Monitor G02b where
   next _ g op pre post := g.next op pre post
   checks _ g op pre post := checks02 (g.next op pre post).failed g.cfg op post
 
+/-! #### C18, the running patch itself
+
+  `mon18` ends the tracking of the running patch when something happens to that patch itself. This
+  monitor needs no tracking: no call of a process other than a launch report, an initialisation or
+  one that discards the stored state, and no outside event other than a restart or a rewrite of the
+  state files, changes the booting record - hence the reported current patch - whatever it does to
+  the running patch's selection, artifact or last-good record. -/
+
+structure G18s where
+  cfg : Option Config := none
+
+def calmB (cfg : Option Config) (op : Op) (pre : View) : Bool :=
+  !op.isStateDamage && !resetsState cfg op pre &&
+  (match op with
+   | .restart | .start | .success | .failure | .init _ => false
+   | _ => true)
+
+def mon18s : Monitor G18s where
+  init := {}
+  next _ g op _ _ := { cfg := trackCfg g.cfg op }
+  checks _ g op pre post :=
+    if calmB g.cfg op pre then
+      [(decide (post.ps.booting = pre.ps.booting),
+        "C18: a call that is neither a launch report nor an initialisation changed the booting record (the running patch)")]
+    else []
+
 end Updater
